@@ -134,6 +134,10 @@ func makeRemoteSource(sourceType string, u *url.URL, subPath string) (RemoteSour
 	if defaultForm := (&url.URL{Path: u.Path}); u.EscapedPath() == defaultForm.EscapedPath() {
 		u.RawPath = ""
 	}
+	// Likewise for the fragment.
+	if defaultForm := (&url.URL{Fragment: u.Fragment}); u.EscapedFragment() == defaultForm.EscapedFragment() {
+		u.RawFragment = ""
+	}
 
 	return RemoteSource{
 		pkg: RemotePackage{
